@@ -177,9 +177,8 @@ namespace sqf::parser::config
                         // find line comment end
                         while (++iter < m_end && !is_match<'\n'>(iter));
 
-                        // update position info
-                        m_line++;
-                        m_column = 0;
+                        // update position info (the terminating newline is not part of the comment)
+                        m_column += iter - m_current;
 
                         // set length
                         len = iter - m_current;
